@@ -158,7 +158,11 @@ func cmdCheck(args []string) int {
 			if _, ok := byClass[k]; !ok {
 				order = append(order, k)
 			}
-			if len(byClass[k]) < 3 {
+			lim := 3
+			if v.Kind == "budget" {
+				lim = 16 // a step budget may also be exceeded by a slow but terminating path: try more candidates natively
+			}
+			if len(byClass[k]) < lim {
 				byClass[k] = append(byClass[k], v)
 			}
 		}
@@ -196,7 +200,7 @@ func cmdCheck(args []string) int {
 			os.MkdirAll(filepath.Join(verif, "replays", id), 0o755)
 			rp := filepath.Join(verif, "replays", id, fmt.Sprintf("%s-%d.json", spec.Name, violLines))
 			rb, _ := json.MarshalIndent(map[string]any{"property": id, "run": spec.Name, "pkg": spec.Pkg, "entry": spec.Entry, "params": spec.Params,
-				"kind": hit.Kind, "label": hit.Label, "nd_trace": hit.Trace, "where": hit.Where}, "", " ")
+				"kind": hit.Kind, "label": hit.Label, "nd_trace": hit.Trace, "where": hit.Where, "slow": hit.Slow}, "", " ")
 			os.WriteFile(rp, rb, 0o644)
 			fmt.Printf("VIOLATION property=%s replay=%s\n", id, rp)
 			fmt.Printf("  run=%s kind=%s label=%q nd_trace=%v\n", spec.Name, hit.Kind, hit.Label, hit.Trace)
@@ -354,6 +358,7 @@ func cmdReplay(args []string) int {
 		Property, Run, Pkg, Entry, Kind, Label string
 		Params                                 map[string]int
 		Trace                                  []int64 `json:"nd_trace"`
+		Slow                                   bool
 	}
 	if err := json.Unmarshal(b, &r); err != nil {
 		fmt.Fprintln(os.Stderr, err)
@@ -366,7 +371,7 @@ func cmdReplay(args []string) int {
 	}
 	rep := newReplayer(w)
 	defer rep.Close()
-	ok, out := rep.reproduces(RunSpec{Pkg: r.Pkg, Entry: r.Entry, Params: r.Params}, Violation{Kind: r.Kind, Label: r.Label, Trace: r.Trace}, map[string]bool{})
+	ok, out := rep.reproduces(RunSpec{Pkg: r.Pkg, Entry: r.Entry, Params: r.Params}, Violation{Kind: r.Kind, Label: r.Label, Trace: r.Trace, Slow: r.Slow}, map[string]bool{})
 	fmt.Println(out)
 	if ok {
 		fmt.Printf("VIOLATION property=%s replay=%s\n", r.Property, args[0])
